@@ -49,6 +49,127 @@ func execIdlType(a []string) string {
 	return res
 }
 
+// idl.actions <hex>: action lines, parsed inside an interface; answer: the actions of the interface as
+// the meta-object has them (methods, signals, properties, each by uid)
+func execIdlActions(a []string) string {
+	text := string(unhx(a[0]))
+	src := c18Prelude + "interface I\n" + text + "\nend\n"
+	return safely(func() string {
+		metas, err := idl.ParseIDL(strings.NewReader(src))
+		if err != nil || len(metas) != 1 {
+			return "err"
+		}
+		m := metas[0]
+		bad := func(sig string) bool {
+			return strings.Contains(sig, "not found") || strings.Contains(sig, "cannot") || strings.Contains(sig, " ")
+		}
+		var out []string
+		var ids []int
+		for id := range m.Methods {
+			ids = append(ids, int(id))
+		}
+		sort.Ints(ids)
+		for _, id := range ids {
+			me := m.Methods[uint32(id)]
+			if bad(me.ParametersSignature) || bad(me.ReturnSignature) {
+				out = append(out, fmt.Sprintf("fn %d %s unresolved", id, me.Name))
+				continue
+			}
+			var names []string
+			for _, q := range me.Parameters {
+				names = append(names, q.Name)
+			}
+			out = append(out, fmt.Sprintf("fn %d %s %s -> %s [%s]", id, me.Name, me.ParametersSignature, me.ReturnSignature, strings.Join(names, ",")))
+		}
+		ids = ids[:0]
+		for id := range m.Signals {
+			ids = append(ids, int(id))
+		}
+		sort.Ints(ids)
+		for _, id := range ids {
+			sg := m.Signals[uint32(id)]
+			if bad(sg.Signature) {
+				out = append(out, fmt.Sprintf("sig %d %s unresolved", id, sg.Name))
+				continue
+			}
+			out = append(out, fmt.Sprintf("sig %d %s %s", id, sg.Name, sg.Signature))
+		}
+		ids = ids[:0]
+		for id := range m.Properties {
+			ids = append(ids, int(id))
+		}
+		sort.Ints(ids)
+		for _, id := range ids {
+			pr := m.Properties[uint32(id)]
+			if bad(pr.Signature) {
+				out = append(out, fmt.Sprintf("prop %d %s unresolved", id, pr.Name))
+				continue
+			}
+			out = append(out, fmt.Sprintf("prop %d %s %s", id, pr.Name, pr.Signature))
+		}
+		if len(out) == 0 {
+			return "ok"
+		}
+		return "ok " + strings.Join(out, "; ")
+	})
+}
+
+// c18ActionLines: action lines as GenerateIDL writes them, and as a person might (other white space, no uid,
+// other comments, repeated uids, uid 0, a trailing separator, broken lines)
+func c18ActionLines(r *Rand, o *Out) string {
+	names := []string{"get", "set", "value", "onEvent", "x1", "Name", "a_b", "registerEvent", "fn", "sig", "prop", "end", "fnord", "signal"}
+	pnames := []string{"a", "b", "name", "P0", "x_y", "id2", "param", "fn", "end"}
+	n := 1 + r.Intn(4)
+	var lines []string
+	for i := 0; i < n; i++ {
+		kind := []string{"fn", "sig", "prop"}[r.Intn(3)]
+		np := r.Intn(4)
+		if kind == "prop" && r.Chance(70) {
+			np = 1
+		}
+		var ps []string
+		for j := 0; j < np; j++ {
+			sp := ": "
+			if r.Chance(15) {
+				sp = []string{":", " : ", ":\t"}[r.Intn(3)]
+			}
+			ps = append(ps, pnames[r.Intn(len(pnames))]+sp+c18TypeText(r, 1, o))
+		}
+		sep := ","
+		if kind != "fn" || r.Chance(30) {
+			sep = ", "
+		}
+		line := "\t" + kind + " " + names[r.Intn(len(names))] + "(" + strings.Join(ps, sep)
+		if r.Chance(5) {
+			line += ","
+			o.Count("action:trailing-separator")
+		}
+		line += ")"
+		if kind == "fn" && r.Chance(60) {
+			line += " -> " + c18TypeText(r, 1, o)
+		}
+		switch k := r.Intn(20); {
+		case k < 13:
+			line += fmt.Sprintf(" //uid:%d", []int{100, 101, 102, 103, 7, 0, 1, 4294967295, 2000}[r.Intn(9)])
+		case k < 15:
+			line += " // a comment"
+			o.Count("action:other-comment")
+		case k < 16:
+			line += " //uid:x"
+		case k < 17:
+			line += " //uid:12 and more"
+		default:
+			o.Count("action:no-uid")
+		}
+		if r.Chance(4) {
+			line = strings.Replace(line, "(", "", 1)
+			o.Count("action:broken")
+		}
+		lines = append(lines, line)
+	}
+	return strings.Join(lines, "\n")
+}
+
 // ---- meta-object generator ---------------------------------------------------------------------
 
 type c18Action struct {
@@ -341,6 +462,7 @@ func childIdlFuzz(a []string) string {
 
 func init() {
 	executors["idl.type"] = execIdlType
+	executors["idl.actions"] = execIdlActions
 	executors["idl.rt"] = func(a []string) string { return "replay-needs-the-generator" }
 	children["idl.fuzz"] = childIdlFuzz
 	executors["idl.fuzz"] = func(a []string) string {
@@ -413,6 +535,11 @@ func runC18(r *Rand, tier string, o *Out) {
 				o.Count("printed-type")
 			}
 		}
+	}
+	// action lines
+	for i := 0; i < n/2; i++ {
+		out := o.Do("P", "idl.actions "+hx([]byte(c18ActionLines(r, o))), true)
+		o.Count("actions-answer:" + strings.SplitN(out, " ", 2)[0])
 	}
 	// whole meta-objects
 	m := 150
